@@ -678,15 +678,17 @@ container : Container :: new ( lg_size ) , }
 & self . container }
 
 
-    fn update ( & mut self , coupon : u32 ) requires old ( self ) . shape ( ) , coupon != 0 , old ( self ) . container . len < usize :: MAX ,
+    fn update ( & mut self , coupon : u32 ) requires old ( self ) . shape ( ) , old ( self ) . container . len < usize :: MAX ,
 /*@C02.set_has_room*/ old ( self ) . has_room ( ) , ensures final ( self ) . shape ( ) , final ( self ) . container . lg_size == old ( self ) . container . lg_size ,
-/*@C02.set_coupons*/ final ( self ) @ == old ( self ) @ . insert ( coupon ) , final ( self ) . container . len <= old ( self ) . container . len + 1 ,
-/*@C02.set_probe_invariant*/ old ( self ) . wf ( ) ==> final ( self ) . wf ( ) ,
-/*@C02.set_len*/ old ( self ) . wf ( ) ==> final ( self ) . container . len == old ( self ) . container . len + ( if old ( self ) @ . contains ( coupon ) {
+/*@C02.set_coupons*/ coupon != 0 ==> final ( self ) @ == old ( self ) @ . insert ( coupon ) , final ( self ) . container . len <= old ( self ) . container . len + 1 ,
+/*@C02.set_probe_invariant*/ coupon != 0 && old ( self ) . wf ( ) ==> final ( self ) . wf ( ) ,
+/*@C02.set_len*/ coupon != 0 && old ( self ) . wf ( ) ==> final ( self ) . container . len == old ( self ) . container . len + ( if old ( self ) @ . contains ( coupon ) {
 0int }
 else {
 1int }
-) , {
+) ,
+/*@C02.set_count*/ coupon != 0 && old ( self ) . container . wf_len ( ) ==> final ( self ) . container . wf_len ( ) ,
+/*@C02.set_empty_coupon*/ coupon == 0 ==> final ( self ) . container . coupons @ == old ( self ) . container . coupons @ && final ( self ) . container . len == old ( self ) . container . len + 1 , {
 proof {
 lemma_shl_pow2 ( self . container . lg_size as u32 ) ;
 lemma_pow2_pos ( self . container . lg_size as nat ) ;
@@ -716,10 +718,12 @@ lemma_small_mod ( p0 as nat , size as nat ) ;
 }
 lemma_occ_len ( oc ) ;
 }
-loop invariant_except_break self . container . coupons @ == oc , self . container . len == old ( self ) . container . len , invariant self . container . lg_size == old ( self ) . container . lg_size , oc == old ( self ) . container . coupons @ , old ( self ) . shape ( ) , old ( self ) . has_room ( ) , coupon != 0 , old ( self ) . container . len < usize :: MAX , lgs == self . container . lg_size , lg == lgs as nat , size == pow2 ( lg ) , size == oc . len ( ) , size <= 0x4000000 , mask == size - 1 , mask == ( ( 1u32 << ( lg as u32 ) ) - 1 ) as u32 , lg < 27 , s == stride_of ( coupon , lgs ) , s % 2 == 1 , 0 < s < 0x4000000 , p0 == starting_position , 0 <= p0 < size , p0 == home ( coupon , lgs ) , 0 <= j < size , probe == path ( oc , coupon , lgs , j ) , 0 <= probe < size , forall | p : int | visited . contains ( p ) <==> exists | i : int | 0 <= i < j && p == probe_at ( p0 , s , i , size ) , visited . len ( ) == j , visited . subset_of ( occupied ( oc ) ) , occupied ( oc ) . len ( ) == nz ( oc ) . len ( ) , zero_free ( oc , coupon , lgs , j ) , path_clear ( oc , coupon , lgs , j ) , ensures self . shape ( ) ,
-/*@C02.set_coupons*/ self @ == old ( self ) @ . insert ( coupon ) , self . container . len <= old ( self ) . container . len + 1 ,
-/*@C02.set_probe_invariant*/ old ( self ) . wf ( ) ==> self . wf ( ) ,
-/*@C02.set_len*/ old ( self ) . wf ( ) ==> self . container . len == old ( self ) . container . len + ( if old ( self ) @ . contains ( coupon ) {
+loop invariant_except_break self . container . coupons @ == oc , self . container . len == old ( self ) . container . len , invariant self . container . lg_size == old ( self ) . container . lg_size , oc == old ( self ) . container . coupons @ , old ( self ) . shape ( ) , old ( self ) . has_room ( ) , old ( self ) . container . len < usize :: MAX , lgs == self . container . lg_size , lg == lgs as nat , size == pow2 ( lg ) , size == oc . len ( ) , size <= 0x4000000 , mask == size - 1 , mask == ( ( 1u32 << ( lg as u32 ) ) - 1 ) as u32 , lg < 27 , s == stride_of ( coupon , lgs ) , s % 2 == 1 , 0 < s < 0x4000000 , p0 == starting_position , 0 <= p0 < size , p0 == home ( coupon , lgs ) , 0 <= j < size , probe == path ( oc , coupon , lgs , j ) , 0 <= probe < size , forall | p : int | visited . contains ( p ) <==> exists | i : int | 0 <= i < j && p == probe_at ( p0 , s , i , size ) , visited . len ( ) == j , visited . subset_of ( occupied ( oc ) ) , occupied ( oc ) . len ( ) == nz ( oc ) . len ( ) , zero_free ( oc , coupon , lgs , j ) , path_clear ( oc , coupon , lgs , j ) , ensures self . shape ( ) ,
+/*@C02.set_coupons*/ coupon != 0 ==> self @ == old ( self ) @ . insert ( coupon ) , self . container . len <= old ( self ) . container . len + 1 ,
+/*@C02.set_count*/ coupon != 0 && old ( self ) . container . wf_len ( ) ==> self . container . wf_len ( ) ,
+/*@C02.set_empty_coupon*/ coupon == 0 ==> self . container . coupons @ == oc && self . container . len == old ( self ) . container . len + 1 ,
+/*@C02.set_probe_invariant*/ coupon != 0 && old ( self ) . wf ( ) ==> self . wf ( ) ,
+/*@C02.set_len*/ coupon != 0 && old ( self ) . wf ( ) ==> self . container . len == old ( self ) . container . len + ( if old ( self ) @ . contains ( coupon ) {
 0int }
 else {
 1int }
@@ -730,8 +734,13 @@ if * value == COUPON_EMPTY {
 self . container . len += 1 ;
 proof {
 assert ( self . container . coupons @ =~= oc . update ( probe as int , coupon ) ) ;
+if coupon != 0 {
 lemma_nz_store ( oc , probe as int , coupon ) ;
-if old ( self ) . wf ( ) {
+}
+else {
+assert ( oc . update ( probe as int , coupon ) =~= oc ) ;
+}
+if coupon != 0 && old ( self ) . wf ( ) {
 if oc . contains ( coupon ) {
 lemma_probe_hits_existing ( oc , lgs , coupon , j ) ;
 }
